@@ -155,11 +155,11 @@ Section Parser.
     | (k, v) :: r =>
         if (negb (is_tag (n_tag v) strTag) || kind_mismatch v KScalar)%bool then
           Some ({| pe_line := n_line v + off_line;
-                   pe_msg := fld ++ " " ++ n_value k ++ " value must be a string, got " ++ describe_tag (n_tag v) ++ " instead" |}, lines)
-        else if mem_str (n_value k) seen then
-          Some ({| pe_line := n_line k + off_line; pe_msg := "duplicated " ++ fld ++ " key " ++ n_value k |},
+                   pe_msg := fld ++ " " ++ node_value k ++ " value must be a string, got " ++ describe_tag (n_tag v) ++ " instead" |}, lines)
+        else if mem_str (node_value k) seen then   (* fix cd8be7e: keys are read through yaml aliases *)
+          Some ({| pe_line := n_line k + off_line; pe_msg := "duplicated " ++ fld ++ " key " ++ node_value k |},
                 (fst (range_from_yaml_maps all) + off_line, snd (range_from_yaml_maps all) + off_line))   (* fix 0202885 *)
-        else validate_string_map_loop fld all off_line lines (n_value k :: seen) r
+        else validate_string_map_loop fld all off_line lines (node_value k :: seen) r
     end.
 
   Definition validate_string_map (fld : string) (nodes : list (node * node)) (off_line : nat) (lines : nat * nat) :=
@@ -426,8 +426,8 @@ Section Parser.
     match l with
     | [] => None
     | (k, v) :: r =>
-        if (negb (lname_ok (n_value k)) || String.eqb (n_value k) "__name__")%bool then
-          Some {| pe_line := n_line k; pe_msg := "invalid label name: " ++ n_value k |}
+        if (negb (lname_ok (node_value k)) || String.eqb (node_value k) "__name__")%bool then   (* fix cd8be7e *)
+          Some {| pe_line := n_line k; pe_msg := "invalid label name: " ++ node_value k |}
         else if negb (lvalue_ok (node_value v)) then
           Some {| pe_line := n_line k; pe_msg := "invalid label value: " ++ node_value v |}
         else bad_group_label r
